@@ -24,6 +24,10 @@ type lockInfo struct {
 	at    map[ssa.Instruction]lockState
 	entry map[*ssa.Function]lockState
 	known map[*ssa.Function]bool
+	// wrapper summaries: the state in which a function that itself locks/unlocks returns
+	exit    map[*ssa.Function]lockState
+	hasExit map[*ssa.Function]bool
+	touches map[*ssa.Function]bool
 }
 
 func isBuilderMuCall(ci ssa.CallInstruction, name string) bool {
@@ -41,13 +45,45 @@ func isBuilderMuCall(ci ssa.CallInstruction, name string) bool {
 
 // computeLocks runs the lockset analysis over the sourcebundle package.
 func computeLocks(p *Prog) *lockInfo {
-	li := &lockInfo{p: p, at: map[ssa.Instruction]lockState{}, entry: map[*ssa.Function]lockState{}, known: map[*ssa.Function]bool{}}
+	li := &lockInfo{p: p, at: map[ssa.Instruction]lockState{}, entry: map[*ssa.Function]lockState{}, known: map[*ssa.Function]bool{},
+		exit: map[*ssa.Function]lockState{}, hasExit: map[*ssa.Function]bool{}, touches: map[*ssa.Function]bool{}}
 	bpk := p.PkgPath("sourcebundle")
 	var fns []*ssa.Function
 	for _, fn := range p.Funcs {
 		outer := p.Outer(fn)
 		if outer.Package() != nil && outer.Package().Pkg.Path() == bpk {
 			fns = append(fns, fn)
+		}
+	}
+	// functions that lock or unlock Builder.mu themselves (directly or through in-package callees)
+	for _, fn := range fns {
+		for _, ci := range callsIn(fn) {
+			if _, isDefer := ci.(*ssa.Defer); isDefer {
+				continue
+			}
+			if isBuilderMuCall(ci, "Lock") || isBuilderMuCall(ci, "Unlock") {
+				li.touches[fn] = true
+			}
+		}
+	}
+	for changed := true; changed; {
+		changed = false
+		for _, fn := range fns {
+			if li.touches[fn] {
+				continue
+			}
+			for _, ci := range callsIn(fn) {
+				if _, isGo := ci.(*ssa.Go); isGo {
+					continue
+				}
+				if _, isDefer := ci.(*ssa.Defer); isDefer {
+					continue
+				}
+				if g := ci.Common().StaticCallee(); g != nil && li.touches[g] && g.Parent() == nil {
+					li.touches[fn] = true
+					changed = true
+				}
+			}
 		}
 	}
 	// exported functions and methods start unlocked
@@ -136,6 +172,13 @@ func (li *lockInfo) analyse(fn *ssa.Function) {
 	have[fn.Blocks[0]] = true
 	work := []*ssa.BasicBlock{fn.Blocks[0]}
 	out := map[*ssa.BasicBlock]lockState{}
+	var exitSt lockState
+	haveExit := false
+	defer func() {
+		if haveExit {
+			li.exit[fn], li.hasExit[fn] = exitSt, true
+		}
+	}()
 	for len(work) > 0 {
 		b := work[0]
 		work = work[1:]
@@ -148,11 +191,23 @@ func (li *lockInfo) analyse(fn *ssa.Function) {
 						st = lockState{Held: true}
 					} else if isBuilderMuCall(ci, "Unlock") {
 						st = lockState{}
+					} else if _, isGo := ins.(*ssa.Go); !isGo {
+						// a wrapper that locks/unlocks: continue in the state it returns in
+						if g := ci.Common().StaticCallee(); g != nil && g != fn && g.Parent() == nil && li.touches[g] && li.hasExit[g] {
+							st = li.exit[g]
+						}
 					}
 				}
 			}
 		}
 		out[b] = st
+		if _, isRet := b.Instrs[len(b.Instrs)-1].(*ssa.Return); isRet {
+			if !haveExit {
+				exitSt, haveExit = st, true
+			} else {
+				exitSt = meetLock(exitSt, st)
+			}
+		}
 		for i, s := range b.Succs {
 			ns := st
 			// passing the not-closed edge of the closed test while holding the lock
